@@ -104,6 +104,7 @@ DEFAULT_MODULES = (
     "amoco.system.structs.core",
     "amoco.system.structs.fields",
     "amoco.system.structs.utils",
+    "amoco.system.elf",
     "crysp.bits",
 )
 
